@@ -10,8 +10,13 @@ def editions : List Nat := [2006, 2013, 2020]
     by record number, supported ext. data records, WWH-OBD, readiness group) -/
 def dtcSubfn2020 : List Nat := [0x16, 0x17, 0x18, 0x19, 0x1A, 0x42, 0x55, 0x56]
 
+/-- ReadDTCInformation subfunctions of ISO 14229-1:2020, table 315 (those the library defines) -/
+def dtcSubfnDefined : List Nat :=
+  [0x01, 0x02, 0x03, 0x04, 0x05, 0x06, 0x07, 0x08, 0x09, 0x0A, 0x0B, 0x0C, 0x0D, 0x0E, 0x0F, 0x10, 0x11, 0x12, 0x13, 0x14, 0x15,
+   0x16, 0x17, 0x18, 0x19, 0x1A, 0x42, 0x55, 0x56]
+
 /-- a ReadDTCInformation subfunction byte may be requested under edition `v` -/
-def dtcSubfnAllowed (sf : Nat) (v : Nat) : Bool := 1 ≤ sf && sf ≤ 0xFF && (!dtcSubfn2020.contains sf || v ≥ 2020)
+def dtcSubfnAllowed (sf : Nat) (v : Nat) : Bool := dtcSubfnDefined.contains sf && (!dtcSubfn2020.contains sf || v ≥ 2020)
 
 /-- MemorySelection on ClearDiagnosticInformation exists from 2020 -/
 def clearMemSelAllowed (v : Nat) : Bool := v ≥ 2020
